@@ -79,11 +79,12 @@ def fn_breakdown(out):
     return res
 
 
-VERIFICATION_FAILURES = ("precondition not satisfied", "postcondition not satisfied", "invariant not satisfied",
+VERIFICATION_FAILURES = ("precondition not satisfied", "precondition not met", "postcondition not satisfied", "invariant not satisfied",
                          "assertion failed", "assertion not satisfied", "decreases not satisfied",
                          "could not prove termination", "possible arithmetic underflow/overflow",
                          "possible division by zero", "possible bit shift underflow/overflow",
-                         "unable to prove this pattern will successfully match")
+                         "unable to prove this pattern will successfully match",
+                         "unable to prove post-condition of closure")
 
 
 def map_diags(meta, diags, woven_name):
@@ -94,6 +95,7 @@ def map_diags(meta, diags, woven_name):
     tool = []
     lemma = []
     site_clause = {}
+    rlimits = []
 
     def add(oid, msg):
         failed.setdefault(oid, [])
@@ -116,7 +118,13 @@ def map_diags(meta, diags, woven_name):
             tool.append(msg)
             continue
         ml = msg.lower()
-        if d.get("code") is not None or "rlimit" in ml or "resource limit" in ml \
+        if "rlimit" in ml or "resource limit" in ml:
+            # decided below: Verus keeps searching for further errors after the first failed obligation of a function and
+            # may exhaust the budget doing so; that does not undo the obligation it has already refuted
+            fr = [x for x in fns if x["woven_line_start"] <= spans[0]["line_start"] <= x["woven_line_end"]]
+            rlimits.append((fr[0]["path"] if fr else None, "%s @%d" % (msg, spans[0]["line_start"])))
+            continue
+        if d.get("code") is not None \
                 or "not supported" in ml or "unsupported" in ml or "not yet support" in ml \
                 or "does not support" in ml or "not implemented" in ml or "unexpected token" in ml \
                 or ml.startswith("expected ") or "cannot find" in ml:
@@ -184,6 +192,9 @@ def map_diags(meta, diags, woven_name):
                         site_clause.setdefault(o["id"], set()).add(c["id"])
             continue
         add("%s/safety" % fpath, rendered)
+    for fpath, m in rlimits:
+        if fpath is None or not any(k.startswith(fpath + "/") for k in failed):
+            tool.append(m)
     map_diags.site_clause = {k: sorted(v) for k, v in site_clause.items()}
     return failed, tool, lemma
 
